@@ -346,7 +346,10 @@ static void hwv_observe(FILE *f, hwloc_topology_t t, int with_xml)
   unsigned i, j, nr;
   const struct hwloc_topology_support *sup = hwloc_topology_get_support(t);
   struct hwloc_infos_s *ti = hwloc_topology_get_infos(t);
-  hwv_dump_topology(f, t, 0);
+  int nogp = with_xml == 2;
+#define HWV_OID(o) ((o) ? (nogp ? (unsigned long long)(o)->logical_index : (unsigned long long)(o)->gp_index) : 0ull)
+  if (nogp) with_xml = 0;
+  hwv_dump_topology(f, t, nogp ? 1 : 0);
   fprintf(f, "thissystem %d\n", hwloc_topology_is_thissystem(t));
   fprintf(f, "support %llx %llx %llx %llx\n", hwv_fnv(sup->discovery, sizeof(*sup->discovery)), hwv_fnv(sup->cpubind, sizeof(*sup->cpubind)),
           hwv_fnv(sup->membind, sizeof(*sup->membind)), hwv_fnv(sup->misc, sizeof(*sup->misc)));
@@ -362,7 +365,7 @@ static void hwv_observe(FILE *f, hwloc_topology_t t, int with_xml)
     for (i = 0; i < got && i < nr; i++) {
       const char *nm = hwloc_distances_get_name(t, ds[i]);
       fprintf(f, "dist kind=%lu nbobjs=%u name=", ds[i]->kind, ds[i]->nbobjs); hwv_pstr(f, nm); fputs(" objs=", f);
-      for (j = 0; j < ds[i]->nbobjs; j++) fprintf(f, "%d:%llu,", ds[i]->objs[j] ? (int)ds[i]->objs[j]->type : -1, ds[i]->objs[j] ? (unsigned long long)ds[i]->objs[j]->gp_index : 0ull);
+      for (j = 0; j < ds[i]->nbobjs; j++) fprintf(f, "%d:%llu,", ds[i]->objs[j] ? (int)ds[i]->objs[j]->type : -1, HWV_OID(ds[i]->objs[j]));
       fputs(" values=", f);
       for (j = 0; j < ds[i]->nbobjs * ds[i]->nbobjs; j++) fprintf(f, "%llu,", (unsigned long long)ds[i]->values[j]);
       fputc('\n', f);
@@ -382,7 +385,7 @@ static void hwv_observe(FILE *f, hwloc_topology_t t, int with_xml)
     tgs = calloc(ntg, sizeof(*tgs)); { unsigned n2 = ntg; hwloc_memattr_get_targets(t, i, NULL, 0, &n2, tgs, NULL); if (n2 < ntg) ntg = n2; }
     for (j = 0; j < ntg; j++) {
       unsigned ni = 0, k; struct hwloc_location *ins; hwloc_uint64_t *vals;
-      fprintf(f, " target gp=%llu", (unsigned long long)tgs[j]->gp_index);
+      fprintf(f, " target gp=%llu", HWV_OID(tgs[j]));
       if (!(fl & HWLOC_MEMATTR_FLAG_NEED_INITIATOR)) {
         hwloc_uint64_t v = 0; int rc = hwloc_memattr_get_value(t, i, tgs[j], NULL, 0, &v);
         fprintf(f, " value=%d:%llu\n", rc, (unsigned long long)v); continue;
@@ -393,7 +396,7 @@ static void hwv_observe(FILE *f, hwloc_topology_t t, int with_xml)
       fprintf(f, " ninit=%u", ni);
       for (k = 0; k < ni; k++) {
         if (ins[k].type == HWLOC_LOCATION_TYPE_CPUSET) { fputs(" c:", f); hwv_obs_set(f, ins[k].location.cpuset); }
-        else fprintf(f, " o:%llu", ins[k].location.object ? (unsigned long long)ins[k].location.object->gp_index : 0ull);
+        else fprintf(f, " o:%llu", HWV_OID(ins[k].location.object));
         fprintf(f, "=%llu", (unsigned long long)vals[k]);
       }
       fputc('\n', f);
